@@ -26,9 +26,14 @@ for path, es in edits.items():
     p = os.path.join(V, path)
     L = open(p).read().split('\n')
     for line, (name, need) in es.items():
-        m = LABEL_RX.search(L[line - 1])
+        m = LABEL_RX.search(L[line - 1]) if line - 1 < len(L) else None
         if not m or m.group(2) != name:
-            print('SKIP (label moved):', path, line, name); continue
+            # the spec file was edited since the analysis: look for the same label nearby
+            cand = [k for k in range(max(0, line - 80), min(len(L), line + 80)) if (LABEL_RX.search(L[k]) and LABEL_RX.search(L[k]).group(2) == name)]
+            if len(cand) != 1:
+                print('SKIP (label moved):', path, line, name); continue
+            line = cand[0] + 1
+            m = LABEL_RX.search(L[line - 1])
         props = [x.strip() for x in m.group(1).split(',') if x.strip()]
         new = props + [x for x in need if x not in props]
         L[line - 1] = L[line - 1][:m.start()] + '//# %s %s' % (','.join(new), name)
